@@ -19,7 +19,7 @@ RULE = ('case = device log table, a log configuration (0..26 variables over all 
         'create/append wire hash) for accepted configurations.')
 ASSUMPTIONS = ['firmware V2 block-creation layout: entries of (type:u8, id:u16); data packet = id, 24-bit timestamp, values',
                'for table variables the stored-type nibble may be the fetch type or the table type (the firmware ignores it)']
-REQUIRED = ['mon.deleted_configurations_started_again', 'mon.configs_added_again_after_the_log_table_indices_moved', 'mon.configs_with_a_float_period', 'mon.rejected_configs_used_anyway', 'mon.refused_configurations_started_again', 'mon.configs_accepted', 'mon.configs_rejected', 'mon.create_messages', 'mon.append_messages',
+REQUIRED = ['mon.two_syncloggers_on_one_crazyflie', 'mon.deleted_configurations_started_again', 'mon.configs_added_again_after_the_log_table_indices_moved', 'mon.configs_with_a_float_period', 'mon.rejected_configs_used_anyway', 'mon.refused_configurations_started_again', 'mon.configs_accepted', 'mon.configs_rejected', 'mon.create_messages', 'mon.append_messages',
             'mon.data_packets_decoded', 'mon.flag_checks', 'mon.readd_checks', 'mon.synclogger_samples',
             'mon.rejected_then_readded_on_newer_firmware', 'mon.delivered_samples_rechecked_later',
             'mon.synclogger_first_sample_right_behind_start_ack',
@@ -279,6 +279,22 @@ def run(desc, ctx):
                 th.start()
                 s.sleep(0.1)
                 blk2 = dev.blocks.get(lc2.id)
+                thb = None
+                if (desc['seed'] // 8) % 2 == 0:
+                    # a second SyncLogger on the same Crazyflie (another consumer of the application): it ends at the disconnect too
+                    lc3 = mkconf()
+                    slb = SyncLogger(cf, lc3)
+
+                    def consume_b():
+                        with slb as logger_b:
+                            for entry in logger_b:
+                                ob['sync'].setdefault('yielded_b', []).append(entry[0])
+                        ob['sync']['ended_b'] = True
+                    ob['sync']['second'] = True
+                    thb = threading.Thread(target=consume_b)
+                    thb.start()
+                    s.sleep(0.1)
+                ob['thb'] = thb
             for i in range(rnd.randint(1, 6)):
                 vals = [_val(rnd, op[0]) for op in blk.ops]
                 ts = rnd.choice((0, 1, 0xFFFFFF, rnd.getrandbits(24)))
@@ -344,6 +360,8 @@ def run(desc, ctx):
         if desc['hist'] == 1 and ob['sync'] is not None:
             s.horizon = s.now + 100.0
             th.join()
+            if ob.get('thb') is not None:
+                ob['thb'].join()
 
     _, abort, s = harness.sched_case(fn, seed=desc['seed'], policy=desc['sched'], line_p=harness.line_p_for(desc['seed'], 8, 0.05), horizon=3000.0, max_steps=12_000_000)
     ctx.count('mon.statement_level_preemption_points', s.line_points)
@@ -537,6 +555,11 @@ def run(desc, ctx):
             ctx.count('mon.synclogger_first_sample_right_behind_start_ack')
         if not ob['sync']['ended']:
             V('log:synclogger-iteration-did-not-end-at-disconnect', {})
+        if ob['sync'].get('second'):
+            ctx.count('mon.two_syncloggers_on_one_crazyflie')
+            if not ob['sync'].get('ended_b') or ob['sync'].get('yielded_b'):
+                V('log:second-synclogger-did-not-end-at-disconnect-or-yielded-samples-it-was-never-sent',
+                  {'ended': ob['sync'].get('ended_b'), 'yielded': len(ob['sync'].get('yielded_b', []))})
         oky = len(y) == len(sent2)
         if oky:
             names = [sp[1] for sp in specs]
